@@ -76,6 +76,40 @@ CLAIMS.update({
         technique="VC generation from the real AST; symbolic bytes for identity, exhaustive header case split for dispatch; z3",
     ),
 })
+CLAIMS.update({
+    "C02": dict(
+        category="proof",
+        text=("read() is verified under the fault-free stream contract with a ghost partition of the input into items (noise byte, UBX "
+              "frame, NMEA sentence, valid RTCM frame, damaged RTCM frame): loop invariant 'pos is an item boundary and no returnable "
+              "item has been skipped'; each call returns exactly the first returnable item and stops at its end; (None, None) only when "
+              "all items are consumed. Frame length is symbolic in 0..1023 (filler and maximum frames included); cover obligations show "
+              "every item kind is reachable."),
+        design_ref="DESIGN.md 5/C02",
+        note=BASE_TRUST + "Assumed: fault-free stream contract; the ghost item axioms are the property's own well-formedness predicate; "
+             "ParsesOK(payload) is uninterpreted here (C03/C04/C15 give it meaning). The induction over successive read() calls is argued.",
+        technique="VC generation from the real AST; loop invariant over ghost item partition, engine-side axiom instantiation; z3",
+    ),
+    "C05": dict(
+        category="proof",
+        text=("_parse_rtcm3 is proved to have consumed the whole frame before a validation error can surface, _do_error to raise only in "
+              "raise mode and call the handler exactly once in log mode, and read()'s invariant to count handler calls = bad frames "
+              "skipped (log) / none (ignore); in raise mode the exception leaves the stream at the next item boundary so the same reader "
+              "continues. Damage classes give CRC != 0 by the C08 lemmas, re-discharged here."),
+        design_ref="DESIGN.md 5/C05",
+        note=BASE_TRUST + "As C02; user errorhandler assumed not to raise.",
+        technique="VC generation from the real AST; exceptional postconditions + ghost handler-call counter in the loop invariant; z3",
+    ),
+    "C17": dict(
+        category="proof",
+        text=("parse(): the validate bit gates only the CRC test; _parse_rtcm3: the parsed flag gates only the call to parse after the "
+              "frame has been read, and raw/pos' mention the stream only; read() returns exactly the items selected by the "
+              "option-dependent predicate Ret and always stops at the item's end; RTCMReader.__init__ stores options without touching "
+              "the stream."),
+        design_ref="DESIGN.md 5/C17",
+        note=BASE_TRUST + "As C02.",
+        technique="VC generation from the real AST; option values symbolic in every obligation; z3",
+    ),
+})
 REASONS = {}
 
 checks = []
